@@ -157,7 +157,6 @@ variable (s : S)
 @[simp] theorem setRt_pend (r : Nat) (R : Rt) : (s.setRt r R).pend = s.pend := rfl
 @[simp] theorem setRt_mainSecs (r : Nat) (R : Rt) : (s.setRt r R).mainSecs = s.mainSecs := rfl
 @[simp] theorem setRt_nextSeq (r : Nat) (R : Rt) : (s.setRt r R).nextSeq = s.nextSeq := rfl
-@[simp] theorem setRt_now (r : Nat) (R : Rt) : (s.setRt r R).now = s.now := rfl
 @[simp] theorem setRt_rts_same (r : Nat) (R : Rt) : (s.setRt r R).rts r = R := by simp [S.setRt]
 @[simp] theorem setRt_rts_ne (r : Nat) (R : Rt) (i : Nat) (h : i ≠ r) : (s.setRt r R).rts i = s.rts i := by
   simp [S.setRt, h]
